@@ -192,6 +192,47 @@ for k in range(max(N // 10, 10)):
     if abs(np.trace(M) + 1) > 1e-3:
         if not np.allclose(Quaternion.from_matrix(M).to_matrix()[0], M, atol=1e-8):
             fail("roundtrip:matrix-start", "from_matrix(M).to_matrix() != M", {"eu": e})
+# the flags on every class that has its own constructors (Orientation overrides from_euler / from_matrix /
+# from_axes_angles to take a symmetry): degrees only rescales, direction only inverts
+from orix.quaternion import Misorientation  # noqa: E402
+from orix.quaternion import symmetry as _sym  # noqa: E402
+
+for k in range(max(N // 25, 8)):
+    e = [R.uniform(0, 2 * PI), R.uniform(0.05, PI - 0.05), R.uniform(0, 2 * PI)]
+    ax = norm(rand_vec(R))
+    w = R.uniform(0.1, 3.0)
+    ref = bunge_ref(e)
+    for cls, kw in ((Quaternion, {}), (Rotation, {}), (Orientation, {}), (Orientation, {"symmetry": _sym.Oh}),
+                    (Orientation, {"symmetry": _sym.D6}), (Misorientation, {})):
+        name = cls.__name__ + ("+symmetry" if kw else "")
+        st(f"flags/{name}")
+        rep = {"eu": e, "class": name}
+        try:
+            A = cls.from_euler(e, **kw)
+            B = cls.from_euler(np.rad2deg(e), degrees=True, **kw)
+            C = cls.from_euler(e, direction="crystal2lab", **kw)
+            D = cls.from_euler(np.rad2deg(e), direction="crystal2lab", degrees=True, **kw)
+            if not np.allclose(A.to_matrix()[0], ref, atol=1e-9):
+                fail(f"reference:from_euler:{name}", f"{name}.from_euler(e).to_matrix() differs from the Bunge Z-X-Z reference", rep)
+            if not np.allclose(B.data, A.data, atol=1e-12):
+                fail(f"flag:degrees:{name}", f"{name}.from_euler(degrees=True) does more than rescale the angles", rep)
+            if not np.allclose(C.to_matrix()[0], ref.T, atol=1e-9):
+                fail(f"flag:direction:{name}", f"{name}.from_euler(direction='crystal2lab') is not the inverse rotation", rep)
+            if not np.allclose(D.data, C.data, atol=1e-12):
+                fail(f"flag:direction+degrees:{name}", f"{name}.from_euler with both flags differs from direction alone", rep)
+            if kw and (A.symmetry.name != kw["symmetry"].name or C.symmetry.name != kw["symmetry"].name):
+                fail(f"flag:symmetry:{name}", f"{name}.from_euler loses the symmetry", rep)
+            if cls is not Misorientation:
+                F = cls.from_axes_angles(ax, w, **kw)
+                G = cls.from_axes_angles(ax, np.rad2deg(w), degrees=True, **kw)
+                if not np.allclose(F.data, G.data, atol=1e-12) or not np.allclose(F.to_matrix()[0], rodrigues_ref(ax, w), atol=1e-9):
+                    fail(f"flag:degrees:from_axes_angles:{name}", f"{name}.from_axes_angles(degrees=True) does more than rescale", rep)
+                M = cls.from_matrix(ref, **kw)
+                if not np.allclose(M.to_matrix()[0], ref, atol=1e-8):
+                    fail(f"roundtrip:matrix-start:{name}", f"{name}.from_matrix(M).to_matrix() != M", rep)
+        except Exception as ex:  # noqa
+            fail(f"flag:raises:{name}", f"{type(ex).__name__}: {ex}", rep)
+
 for shape in [(1,), (5,), (2, 3), (2, 1, 2), (0,)]:
     st(f"shape{shape}")
     n = int(np.prod(shape))
